@@ -1,6 +1,6 @@
 """Property -> rules table."""
 
-from .rules import inplace, maps, exponent, decomp, threads
+from .rules import inplace, maps, exponent, decomp, threads, evo, tebd
 
 COMMON_ASSUMPTIONS = [
     "the repository's own source is what runs: no monkey-patching, setattr tricks or user code outside /repo",
@@ -10,6 +10,28 @@ COMMON_ASSUMPTIONS = [
 ]
 
 REGISTRY = {
+    "C11": {
+        "rules": [tebd.rule_id_cache, tebd.rule_trotter_coeffs, tebd.rule_time_bookkeeping, tebd.rule_term_sharing],
+        "explanation": (
+            "static (cache-key/lifetime rule, constant folding, statement-order rules): decides that id()-keyed "
+            "operator caches stay coherent with the terms they key, that the product-formula coefficients satisfy "
+            "their order conditions (sum w = 1, sum w^3 = 0, palindromic order 2), that TEBD's time and queue "
+            "bookkeeping is paired, and that single-site terms are shared without changing the sum. Does NOT "
+            "decide equality with the product formula, convergence order or norm preservation."
+        ),
+        "assumptions": COMMON_ASSUMPTIONS,
+    },
+    "C18": {
+        "rules": [evo.rule_kind_dispatch, evo.rule_update_order],
+        "explanation": (
+            "static (dispatch-table extraction over Evolution.__init__ and its set-up helpers): decides that every "
+            "method x state-kind combination is dispatched on self._isdop or rejected, that unsupported "
+            "Hamiltonian kinds are rejected, that unknown methods raise, and that every update routine assigns "
+            "state and time before the callback and uses one consistent time origin. Does NOT decide agreement "
+            "with exp(-iHt), conservation laws or integrator tolerance."
+        ),
+        "assumptions": COMMON_ASSUMPTIONS,
+    },
     "C16": {
         "rules": [threads.rule_kernel_template, threads.rule_pool_discipline, threads.rule_divisor_nonzero,
                   threads.rule_stride_siblings],
@@ -75,6 +97,8 @@ REGISTRY = {
 
 
 TECHNIQUE = {
+    "C11": "static analysis: id()-keyed cache coherence rule, constant folding of Trotter coefficients, structural time/queue bookkeeping rules",
+    "C18": "static analysis: dispatch-table extraction (method x state kind) with helper following; statement-order rules on the update routines",
     "C16": "static analysis: kernel-template conformance and write-disjointness rules, sign/zero abstract interpretation of the partition helper, future-observation rule, strided-sibling comparison",
     "C05": "static analysis: constant evaluation of registries, decision-table extraction and generic/numba sibling comparison, sentinel-convention and option use-or-reject rules",
     "C01": "static analysis: def-use flag closure (network / extracted-tensors / exponent-read) per evaluator + constructor-forwarding and sibling rules on TNLinearOperator",
